@@ -499,6 +499,10 @@ class Exec:
                 s.status = 'cut'; s.result = e.why; self.done.append(s)
             except Unsupported as e:
                 s.status = 'unsupported'; s.result = str(e) + ' @ ' + self.where(s); self.done.append(s)
+            except (z3.Z3Exception, TypeError, AttributeError, KeyError, IndexError, ValueError) as e:
+                import traceback
+                tb = traceback.extract_tb(e.__traceback__)[-1]
+                s.status = 'unsupported'; s.result = f'engine error {type(e).__name__}: {e} ({tb.filename.split("/")[-1]}:{tb.lineno}) @ ' + self.where(s); self.done.append(s)
         return self.done
 
     def where(self, st):
